@@ -76,6 +76,32 @@ def r02_1(ctx):
             if ra == r1 and rb == r1 and fa == ['min', 'y'] and fb == ['max', 'y']:
                 oky = True
         ctx.check(oky, R, sk + '|y-range', call_line(b, bi), 'y iterates R.min.y..R.max.y of the same rectangle', 'the rows passed to blit_span do not iterate min.y..max.y of the rectangle that bounds x')
+        # structural form when the rectangle is a chain of intersections: its operands must be exactly the four bounds
+        def chain_ops(t):
+            t = strip_all(t)
+            if t[0] in ('phi', 'rec'):
+                return None
+            if is_call(t, 'Box2D::<T, U>::intersection_unchecked') and len(t[2]) == 2:
+                a, b2 = chain_ops(t[2][0]), chain_ops(t[2][1])
+                if a is None or b2 is None:
+                    return None
+                return a + b2
+            return [t]
+        ops = chain_ops(r1)
+        if ops is not None and len(ops) >= 2:
+            def kind_of(t):
+                if t == ('param', P_RECT):
+                    return 'rect'
+                if t == ('param', P_MASK_RECT):
+                    return 'mask_rect'
+                if is_call(t, DT + 'clip_bounds'):
+                    return 'clip'
+                if t[0] == 'field' and t[3] == '(tuple)' and t[2] == '1' and t[1][0] == 'phi':
+                    return 'dest'
+                return 'other:' + fmt(b, t)[:30]
+            kinds = sorted(kind_of(t) for t in ops)
+            ctx.check(kinds == ['clip', 'dest', 'mask_rect', 'rect'], R, sk + '|intersection chain', call_line(b, bi), 'span rectangle = rect ∩ clip_bounds ∩ dest_bounds ∩ mask_rect',
+                      'the rectangle that bounds the blitted spans is the intersection of %s; it must intersect exactly the rect argument, clip_bounds(), the destination bounds (open layer or surface) and mask_rect — a missing operand means drawing is not limited by it' % kinds)
         # R depends on all four bounds
         D = Deps(an)
         leaves = D.closure(r1)
@@ -740,7 +766,7 @@ def r03_4(ctx):
                     for x in subterms(w):
                         if x[0] == 'deref' and x[1][0] == 'field':
                             flat.append(x)
-                ctx.check(len(set(flat)) == len(ws) and old not in flat, R, key + '|weights', b.loc(), 'one coverage byte per weight', 'weights are %s' % [fmt(b, w) for w in ws])
+                ctx.check(len(set(flat)) >= len(ws) and old not in flat, R, key + '|weights', b.loc(), 'weights are functions of the zipped coverage bytes only', 'weights are %s' % [fmt(b, w) for w in ws])
     ctx.floor(R, 'row proc stores', n, 3)
     impls = blitter_impls(ctx, R)
     for name in SRC_OVER_BLITTERS:
@@ -1294,3 +1320,79 @@ def r06_5(ctx):
                       '%s overwrites self.transform with the identity and does not restore the value saved before on every path to return' % name)
     # device-space functions do not touch the stacks they should not
     b = ctx.body(DT + 'pop_layer', R)
+
+
+# weight conventions of the interpolating combinators at FULL coverage (external facts, sw-composite 0.7.16 source):
+#   lerp(a, b, t): t in 0..=256, lerp(a, b, 256) = b exactly; alpha_to_alpha256(255) = 256
+#   alpha_lerp(a, b, m, c) = lerp(a, b, ((m+1)*c)>>8): at m = c = 255 the weight is 255, so the result is NOT exactly b
+def r03_8(ctx):
+    """full coverage yields exactly blend(source, previous): the interpolation weight reaches 256 at coverage 255"""
+    R = 'R03.8'
+    n = 0
+    for q in ROW_PROCS[1:]:
+        b = ctx.body(q, R)
+        an = ctx.an(b)
+        key = short(q)
+        for addr, val, pt, kind in an.stores:
+            if kind != 'assign':
+                continue
+            n += 1
+            v = strip_all(val)
+            ok = False
+            why = fmt(b, v)[:160]
+            if is_call(v, 'sw_composite::lerp') and len(v[2]) == 3:
+                w = strip_casts(v[2][2], ('IntToInt',))
+                # exact forms: alpha_to_alpha256(c) with c a coverage byte, or a product of coverages normalised by muldiv255
+                if is_call(w, 'sw_composite::alpha_to_alpha256'):
+                    inner = strip_casts(w[2][0], ('IntToInt',))
+                    def cov_or_product(t):
+                        t = strip_casts(t, ('IntToInt',))
+                        if t[0] == 'deref':
+                            return True
+                        if is_call(t, 'sw_composite::muldiv255'):
+                            return all(cov_or_product(a) for a in t[2])
+                        return False
+                    ok = cov_or_product(inner)
+            ctx.check(ok, R, key + '|exact at full coverage', b.loc(), 'weight = alpha_to_alpha256(coverage): 256 at full coverage, lerp returns exactly blend(src, dst)',
+                      'at full coverage (255, and a fully covering clip) the row proc does not return exactly T::blend(src, dst): it stores %s, whose interpolation weight only reaches 255/256 (alpha_lerp multiplies (mask+1)*clip >> 8 = 255; a raw coverage byte is 255): an opaque Src/any non-SrcOver draw through a fully covering path clip is off by one level' % why)
+    ctx.floor(R, 'interpolating row proc stores', n, 2)
+
+
+def r05_7(ctx):
+    """every pushed clip rectangle lies inside the clip bounds in force: it is an intersection with the previous
+    clip rectangle, or with the surface when the stack is empty (clip masks and layers are sized by it)"""
+    R = 'R05.7'
+    b = ctx.body(DT + 'push_clip_rect', R)
+    an = ctx.an(b)
+    key = 'draw_target::DrawTarget::push_clip_rect'
+    ps = [p for p in pushes_on(ctx, b, 'clip_stack') if p[1] == 'push']
+    if not ps:
+        ctx.fail(R, key + '|push', b.loc(), 'no push onto clip_stack found (fail closed)')
+        return
+    clip = ps[0][2][2][1]
+    alts = an.phi_terms(clip) if clip[0] in ('phi', 'rec') else [clip]
+    n = 0
+    for t in alts:
+        t = strip_all(t)
+        if t[0] != 'agg':
+            ctx.fail(R, key + '|arm form', b.loc(), 'a pushed clip is not built as a Clip aggregate: %s' % fmt(b, t))
+            continue
+        n += 1
+        rect = strip_all(dict(t[4])['rect'])
+        ok = False
+        what = fmt(b, rect)
+        if is_call(rect, 'Box2D::<T, U>::intersection_unchecked', 'Box2D::<T, U>::intersection') and len(rect[2]) == 2:
+            ops = [strip_all(x) for x in rect[2]]
+            has_arg = any(x == ('param', 2) for x in ops)
+            def bound(x):
+                if is_call(x, DT + 'clip_bounds'):
+                    return True
+                if is_call(x, 'geom::intrect') and const_val(x[2][0]) == 0 and const_val(x[2][1]) == 0 and is_self_field(x[2][2], 'width') and is_self_field(x[2][3], 'height'):
+                    return True
+                if x[0] == 'field' and x[2] == 'rect' and (x[3] or '').endswith('draw_target::Clip') and is_call(field_path(x)[0], '::last'):
+                    return True
+                return False
+            ok = has_arg and any(bound(x) for x in ops)
+        ctx.check(ok, R, key + '|arm %d within the clip in force' % n, b.loc(), 'rect = argument ∩ (previous clip rect | surface)',
+                  'push_clip_rect pushes %s on one of its arms: a first clip rectangle is taken as given, so it can extend beyond the surface; layers are then sized from it and drawing through a (surface-sized) clip mask indexes it with off-surface coordinates' % what)
+    ctx.floor(R, 'clip aggregates pushed by push_clip_rect', n, 2)
